@@ -782,4 +782,44 @@ theorem C08_sys_partial (ps bs t0 : Nat) (script : List SOp) (hwf : WF ps bs)
   rw [hl] at hq
   simpa using hq
 
+/-! ### The ring tail shares its memory with `resv` of the first ring entry
+
+`io_uring_buf_ring`: the 16-bit tail is the `resv` field of entry 0. In the model the tail is a
+separate word that only `relStore` writes — faithful since fix ddd8274, where the entry write for
+slot 0 carries the current tail in `resv`. Before, `release` wrote `resv: 0`: between `relWrite` and
+`relStore` of a release into slot 0 the tail word read 0. The kernel selects whenever
+`tail ≠ head` (`kselect`; probed on the real kernel by `a10h kc`). -/
+
+/-- The entry write of the old code: for slot 0 it also zeroes the tail word. -/
+def stepOldWrite (s : St) : Act → Option St
+  | .relWrite =>
+    match s.holder with
+    | some ⟨r, .loaded, t⟩ =>
+      some { s with ring := s.ring.set (slot t s.ps) ⟨r.off, s.bs, r.bid⟩,
+                    holder := some ⟨r, .written, t⟩,
+                    tail := if slot t s.ps = 0 then 0 else s.tail }
+    | _ => none
+  | a => step s a
+
+def runOldWrite (s : St) : List Act → Option St
+  | [] => some s
+  | a :: as => match stepOldWrite s a with
+    | none => none
+    | some s' => runOldWrite s' as
+
+/-- Two buffers, both handed out to `ReadBuf`s 0 and 1 (tail = head = 2); `ReadBuf` 0 is being
+released, parked between its entry write and its tail store. -/
+def resvRun : List Act :=
+  [.kselect, .deliver 0 0 3, .kselect, .deliver 1 1 3, .relStart 0 7, .relLock 7, .relLoad, .relWrite]
+
+/-- With the old entry write the kernel can select twice at that moment and is handed buffer 1,
+which `ReadBuf` 1 still owns (two owners); with the real one (`step`) the ring is empty for the
+kernel until `relStore`: `kselect` is not enabled. -/
+theorem C08_resv_zero_hands_out_owned_buffer :
+    (∃ s, runOldWrite (init 2 8 0) (resvRun ++ [.kselect, .kselect]) = some s ∧
+      s.inCqe = [0, 1] ∧ ownedIds s = [1]) ∧
+    (∃ s, run (init 2 8 0) resvRun = some s ∧ s.tail = s.khead ∧ step s .kselect = none ∧
+      ownedIds s = [1]) := by
+  refine ⟨⟨_, rfl, by decide, by decide⟩, ⟨_, rfl, by decide, by decide, by decide⟩⟩
+
 end A10.Pool
